@@ -14,13 +14,13 @@ from .driver import VERIF
 ENGINES = {
     "C07": ["simdst.engines.c07_pool", "simdst.engines.c07_hist"],
     "C08": ["simdst.engines.c08_pool", "simdst.engines.c08_hist"],
-    "C09": ["simdst.engines.c09_hist"],
+    "C09": ["simdst.engines.c09_hist", "simdst.engines.c09_hedge"],
     "C12": ["simdst.engines.c12_hist"],
     "C14": ["simdst.engines.c14_sk"],
     "C19": ["simdst.engines.c19_rand"],
 }
 
-ENGINE_NAMES = {"simdst.engines.c07_pool": "A", "simdst.engines.c07_hist": "B", "simdst.engines.c08_pool": "A8", "simdst.engines.c08_hist": "B8", "simdst.engines.c09_hist": "B9", "simdst.engines.c12_hist": "H", "simdst.engines.c14_sk": "K", "simdst.engines.c19_rand": "R"}
+ENGINE_NAMES = {"simdst.engines.c07_pool": "A", "simdst.engines.c07_hist": "B", "simdst.engines.c08_pool": "A8", "simdst.engines.c08_hist": "B8", "simdst.engines.c09_hist": "B9", "simdst.engines.c09_hedge": "B9h", "simdst.engines.c12_hist": "H", "simdst.engines.c14_sk": "K", "simdst.engines.c19_rand": "R"}
 
 # Probes whose firing depends on what the LIBRARY does (which seam it uses, whether a solver returned a value)
 # rather than on what the harness generates.  A legitimate refactor may stop reaching a seam (e.g. another
@@ -35,7 +35,7 @@ ADVISORY_PROBES = {
 }
 
 SHRINK_BUDGET = {"quick": 20.0, "thorough": 180.0}
-BATCH_WALL = {"quick": 150.0, "thorough": 3600.0}
+BATCH_WALL = {"quick": 240.0, "thorough": 3600.0}
 
 
 def _jobs():
